@@ -257,7 +257,11 @@ import (
 func TestVxNativeReplay(t *testing.T) {
 	defer func() {
 		if r := recover(); r != nil {
+			for _, n := range vx.Notes {
+				t.Logf("VXNOTE: %%s", n)
+			}
 			if _, ok := r.(vx.AssumeFailed); ok {
+				t.Logf("VXASSUMEFAILED")
 				t.Skip("an assumption does not hold natively for this model")
 			}
 			t.Fatalf("VXPANIC: %%v", r)
